@@ -60,4 +60,133 @@ theorem cfgErrDiag_located :
     (cfgErrDiag .unexpectedError).file = nilFile := by
   refine ⟨fun l => ⟨rfl, rfl, rfl⟩, fun l ls => ⟨rfl, rfl⟩, rfl⟩
 
+
+/-! ### duplicate labels -/
+
+/-- the label definitions of the source, in order, with their tokens -/
+def labelDefs (nodes : List Node) : List (W String) :=
+  nodes.filterMap fun n => match n with
+    | .label w _ => some w
+    | _ => none
+
+def Node.isLabel : Node → Bool
+  | .label .. => true
+  | _ => false
+
+theorem buildStep_other (calls : List (W String)) (p : Option (List (W String))) (st : BuildSt) (n : Node)
+    (h : n.isLabel = false) : ∃ st', buildStep calls p st n = .ok st' ∧ st'.all = st.all := by
+  cases n with
+  | label w t => simp [Node.isLabel] at h
+  | directive d dir t =>
+    cases dir <;> exact ⟨_, rfl, rfl⟩
+  | _ =>
+    simp only [buildStep]
+    split <;> exact ⟨_, rfl, rfl⟩
+
+/-- **C16 (`buildLoop_spec`).** The scan over the source stops at the first label definition
+    whose name was already defined — with `DuplicateLabel` carrying the token of that second
+    definition — and if no name is defined twice it does not fail. -/
+theorem buildLoop_spec (calls : List (W String)) (p : Option (List (W String))) (nodes : List Node) :
+    ∀ st : BuildSt,
+      ((∀ w ∈ labelDefs nodes, w.val ∉ st.all) ∧ ((labelDefs nodes).map (·.val)).Nodup →
+        ∃ st', buildLoop calls p nodes st = .ok st') ∧
+      (¬ ((∀ w ∈ labelDefs nodes, w.val ∉ st.all) ∧ ((labelDefs nodes).map (·.val)).Nodup) →
+        ∃ w pre post, buildLoop calls p nodes st = .error (.duplicateLabel w) ∧
+          labelDefs nodes = pre ++ w :: post ∧ (w.val ∈ st.all ∨ w.val ∈ pre.map (·.val))) := by
+  induction nodes with
+  | nil =>
+    intro st
+    refine ⟨fun _ => ⟨st, rfl⟩, fun h => ?_⟩
+    exact absurd ⟨by simp [labelDefs], by simp [labelDefs]⟩ h
+  | cons n rest ih =>
+    intro st
+    by_cases hl : n.isLabel = true
+    · -- a label definition
+      cases n with
+      | label w t =>
+        have hdefs : labelDefs (Node.label w t :: rest) = w :: labelDefs rest := by simp [labelDefs]
+        by_cases hmem : w.val ∈ st.all
+        · -- already defined: the scan stops here
+          have hstep : buildLoop calls p (Node.label w t :: rest) st = .error (.duplicateLabel w) := by
+            simp [buildLoop, buildStep, hmem]
+          refine ⟨fun h => ?_, fun _ => ⟨w, [], labelDefs rest, hstep, by rw [hdefs]; rfl, Or.inl hmem⟩⟩
+          exact absurd hmem (h.1 w (by rw [hdefs]; exact List.mem_cons_self))
+        · have hstep : buildLoop calls p (Node.label w t :: rest) st =
+              buildLoop calls p rest { st with cur := st.cur ++ [w], all := w.val :: st.all } := by
+            simp [buildLoop, buildStep, hmem]
+          obtain ⟨ih1, ih2⟩ := ih { st with cur := st.cur ++ [w], all := w.val :: st.all }
+          rw [hstep, hdefs]
+          constructor
+          · intro ⟨h1, h2⟩
+            apply ih1
+            simp only [List.map_cons, List.nodup_cons, List.mem_map, not_exists, not_and] at h2
+            refine ⟨fun x hx => ?_, h2.2⟩
+            simp only [List.mem_cons, not_or]
+            exact ⟨fun e => h2.1 x hx e, h1 x (List.mem_cons_of_mem _ hx)⟩
+          · intro h
+            have : ¬ ((∀ x ∈ labelDefs rest, x.val ∉ w.val :: st.all) ∧ ((labelDefs rest).map (·.val)).Nodup) := by
+              intro ⟨g1, g2⟩
+              apply h
+              refine ⟨fun x hx => ?_, ?_⟩
+              · rcases List.mem_cons.mp hx with rfl | hx
+                · exact hmem
+                · exact fun hm => g1 x hx (List.mem_cons_of_mem _ hm)
+              · simp only [List.map_cons, List.nodup_cons, List.mem_map, not_exists, not_and]
+                exact ⟨fun x hx e => g1 x hx (by rw [e]; exact List.mem_cons_self), g2⟩
+            obtain ⟨w2, pre, post, e1, e2, e3⟩ := ih2 this
+            refine ⟨w2, w :: pre, post, e1, by rw [e2]; rfl, ?_⟩
+            rcases e3 with e3 | e3
+            · rcases List.mem_cons.mp e3 with e3 | e3
+              · exact Or.inr (by rw [e3]; simp)
+              · exact Or.inl e3
+            · exact Or.inr (by simp only [List.map_cons, List.mem_cons]; exact Or.inr e3)
+      | _ => simp [Node.isLabel] at hl
+    · have hl' : n.isLabel = false := by simpa using hl
+      obtain ⟨st', hs1, hs2⟩ := buildStep_other calls p st n hl'
+      have hdefs : labelDefs (n :: rest) = labelDefs rest := by
+        cases n <;> simp [labelDefs, Node.isLabel] at hl' ⊢
+      have hstep : buildLoop calls p (n :: rest) st = buildLoop calls p rest st' := by
+        simp [buildLoop, hs1]
+      rw [hstep, hdefs, ← hs2]
+      exact ih st'
+
+/-- **C16 (`duplicate_label_reported`).** A program in which some label name is defined twice is
+    refused with `DuplicateLabel` carrying the token of a definition that repeats an earlier
+    one. -/
+theorem duplicate_label_reported (nodes : List Node) (p : Option (List (W String)))
+    (h : ¬ ((labelDefs nodes).map (·.val)).Nodup) :
+    ∃ w pre post, buildNodes nodes p = .error (.duplicateLabel w) ∧
+      labelDefs nodes = pre ++ w :: post ∧ w.val ∈ pre.map (·.val) := by
+  have := (buildLoop_spec (allCallNames nodes p) p nodes {}).2 (fun hh => h hh.2)
+  obtain ⟨w, pre, post, e1, e2, e3⟩ := this
+  refine ⟨w, pre, post, ?_, e2, ?_⟩
+  · unfold buildNodes; rw [e1]
+  · rcases e3 with e3 | e3
+    · simp at e3
+    · exact e3
+
+/-- …and a program whose label names are pairwise distinct is never refused by this scan. -/
+theorem no_duplicate_no_error (nodes : List Node) (p : Option (List (W String)))
+    (h : ((labelDefs nodes).map (·.val)).Nodup) : ∃ g, buildNodes nodes p = .ok g := by
+  obtain ⟨st', e⟩ := (buildLoop_spec (allCallNames nodes p) p nodes {}).1 ⟨fun w _ => by simp, h⟩
+  exact ⟨{ nodes := st'.out }, by unfold buildNodes; rw [e]⟩
+
+
+/-- **C16 (`buildCfg_total`).** Graph construction fails in exactly two situations, each with an
+    error that names a label at an occurrence: a used name without definition, a name defined
+    twice. In every other case it succeeds — it has no unexplained failure. -/
+theorem buildCfg_total (nodes : List Node) (p : Option (List (W String))) :
+    (undefinedNames nodes p ≠ [] ∧
+        buildCfg nodes p = .error (.labelsNotDefined (undefinedNames nodes p))) ∨
+    (undefinedNames nodes p = [] ∧ ¬ ((labelDefs nodes).map (·.val)).Nodup ∧
+        ∃ w pre post, buildCfg nodes p = .error (.duplicateLabel w) ∧
+          labelDefs nodes = pre ++ w :: post ∧ w.val ∈ pre.map (·.val)) ∨
+    (undefinedNames nodes p = [] ∧ ((labelDefs nodes).map (·.val)).Nodup ∧ ∃ g, buildCfg nodes p = .ok g) := by
+  by_cases hu : undefinedNames nodes p = []
+  · rw [no_undefined_no_error nodes p hu]
+    by_cases hd : ((labelDefs nodes).map (·.val)).Nodup
+    · exact Or.inr (Or.inr ⟨hu, hd, no_duplicate_no_error nodes p hd⟩)
+    · exact Or.inr (Or.inl ⟨hu, hd, duplicate_label_reported nodes p hd⟩)
+  · exact Or.inl ⟨hu, undefined_label_reported nodes p hu⟩
+
 end Rva
